@@ -137,6 +137,9 @@ var operatorsOfKind = [...][22]bool{
 	reflect.Complex128: complexOperators,
 	reflect.String:     stringOperators,
 	reflect.Interface:  interfaceOperators,
+	// The table is indexed by every kind: struct{} + struct{} must be an
+	// error, not an index out of range.
+	reflect.UnsafePointer: {},
 }
 
 var constantKindName = map[reflect.Kind]string{
